@@ -49,6 +49,24 @@ let rec parse_points toks = match toks with
   | t :: v :: r -> { p_time = zi t; p_val = z_of_hex v } :: parse_points r
   | _ -> []
 
+(* directory links of the case (dirlink TARGET LINK) and the file a name denotes for the operating system:
+   components are followed one by one, ".." leaves the directory the link points to *)
+let dirlinks : (string, string) Hashtbl.t = Hashtbl.create 4
+let () = case_hooks := (fun () -> Hashtbl.reset dirlinks) :: !case_hooks
+let phys_name (name : string) : string =
+  let cur = ref [] in
+  List.iter (fun c ->
+      if c = "" || c = "." then ()
+      else if c = ".." then (match !cur with _ :: r -> cur := r | [] -> ())
+      else begin
+        cur := c :: !cur;
+        let p = String.concat "/" (List.rev !cur) in
+        match Hashtbl.find_opt dirlinks p with
+        | Some t -> cur := List.rev (List.filter (fun x -> x <> "" && x <> ".") (String.split_on_char '/' t))
+        | None -> ()
+      end) (String.split_on_char '/' name);
+  String.concat "/" (List.rev !cur)
+
 let with_file op name f = match get_file name with
   | None -> obs "%s nofile" op
   | Some h -> f h
@@ -141,7 +159,7 @@ let () =
   register "sync" (fun tk -> match tk with
     | [_; name] -> with_file "sync" name (fun h -> set_file name (Some (sync h)); take_snap name; obs "sync ok")
     | _ -> failwith "sync");
-  register "dirlink" (fun _ -> obs "dirlink ok");
+  register "dirlink" (fun tk -> (match tk with [_; target; link] -> Hashtbl.replace dirlinks link target | _ -> ()); obs "dirlink ok");
   register "rawduring" (fun _ -> obs "rawduring boundary");
   register "abortheld" (fun _ -> obs "abortheld released");
   register "syncclosed" (fun tk -> match tk with
@@ -150,6 +168,17 @@ let () =
   register "drop" (fun tk -> match tk with
     | [_; name] -> with_file "drop" name (fun _ -> obs "drop ok")
     | _ -> failwith "drop");
+  register "openro" (fun tk -> match tk with
+    | [_; name] -> with_file "openro" name (fun h -> match reopen h with
+        | Some h' -> set_file name (Some h'); obs "openro ok"
+        | None -> obs "openro err")
+    | _ -> failwith "openro");
+  (* one slice handed to two batch writes: two batch writes of those points *)
+  register "manytwice" (fun tk -> match tk with
+    | _ :: name :: id1 :: id2 :: rest ->
+      let many = Hashtbl.find handlers "many" in
+      many ("many" :: name :: id1 :: rest); many ("many" :: name :: id2 :: rest)
+    | _ -> failwith "manytwice");
   register "open" (fun tk -> match tk with
     | [_; name] -> with_file "open" name (fun h -> match reopen h with
         | Some h' -> set_file name (Some h'); obs "open ok"
